@@ -1,0 +1,18 @@
+//go:build verif
+
+package actions
+
+import "github.com/google/uuid"
+
+// PubWaiterCountsForVerif returns, for every subscription id that has an entry
+// in the publish-waiter registry, the number of registered waiters (read-only
+// snapshot for the verification harness).
+func PubWaiterCountsForVerif() map[uuid.UUID]int {
+	nmu.Lock()
+	defer nmu.Unlock()
+	out := make(map[uuid.UUID]int, len(pubWaiters))
+	for id, set := range pubWaiters {
+		out[id] = len(set)
+	}
+	return out
+}
